@@ -235,9 +235,12 @@ def _classes(A, mode):
     singular = (onp.abs(lam[:, 0]) <= 8 * EPS * nrm) & (nrm > 0)
     # exact-degeneracy surfaces of the routine's branch variables (float64 replica of its first stage + structure)
     surf = R.branch_surfaces(onp.where(onp.isfinite(A), A, 0.0))
-    d23 = surf["dev_diag_zero"]                                   # either mode
+    # D23 (= D25, sign(b) = 0) is fixed in /repo (a2ecf0b): in single-call mode the class must hold.  Inside a compiled batch the
+    # same exact tie (b = 0: equal deflated diagonal) still gives wrong eigenvalues because XLA evaluates the tied selector
+    # inconsistently across fused consumers -- that is the open D8b mechanism (batched AND exact selector tie AND not axis-aligned).
+    d23 = surf["dev_diag_zero"] & (mode == "single")
     d24 = (mode == "single") & surf["circulant"]
-    d8b = (mode == "batched") & surf["pivot_tie"] & (~axis)
+    d8b = (mode == "batched") & (surf["pivot_tie"] | surf["dev_diag_zero"]) & (~axis)
     known = onp.array([KEY_D23 if a else (KEY_D24 if b else (KEY_D8 if c else (KEY_D8B if d else None)))
                        for a, b, c, d in zip(d23, d24, d8, d8b)], dtype=object)
     return {"lam": lam, "nrm": nrm, "relgap": relgap, "axis": axis, "d8": d8, "singular": singular, "surf": surf,
@@ -331,11 +334,11 @@ def judge(res, clause, err, allowed, known=None, key=None, detail=None, tag=None
                     continue
                 T = onp.asarray(P[i], dtype=float)
                 sf = deflation_surfaces(T)
-                if "b_zero" in sf or d23_signature(T):
-                    found = KEY_D23
-                    break
                 offd = T.copy()
                 offd[[0, 1, 2], [0, 1, 2]] = 0.0
+                if "b_zero" in sf or d23_signature(T):
+                    found = KEY_D8B if (_CTX.get("mode") == "batched" and onp.any(offd != 0.0)) else KEY_D23
+                    break
                 if _CTX.get("mode") == "batched" and (sf & {"pivot_tie", "a_tie", "fac_tie"}) and onp.any(offd != 0.0):
                     found = KEY_D8B
                     break
